@@ -19,6 +19,8 @@ FIRST_ARGS = [  # (source, is plain str literal, executable literal or None, com
     ("'./run.sh'", True, "./run.sh", "./run.sh"), ("'C:\\\\tool.exe'", True, "C:\\tool.exe", None), ("'tar cf a.tar *'", True, "tar cf a.tar *", "tar cf a.tar *"),
     ("['chown', 'root', '*']", False, "chown", " chown root *"), ("'/bin/chmod 777 *.py'", True, "/bin/chmod 777 *.py", "/bin/chmod 777 *.py"),
     ("[]", False, None, ""), ("[cmd, '*']", False, None, None),
+    # a concatenation is not a plain literal, even when every operand is one (seeded change C14-m18 graded `'/bin/ls ' + '-l'` like a literal: LOW)
+    ("'/bin/ls ' + '-l'", False, None, None), ("'echo ' + 'a' + 'b'", False, None, None), ("('rsync -a ' + 'src ' + 'dst')", False, None, None),
     # an unpacked sequence as the first positional argument is an argument (seeded change C14-m12 cut call_args at the first starred entry)
     ("*cmd", False, None, None), ("*['ls', '-l']", False, None, None), ("*cmd, 'r'", False, None, None),
     # the table has no exemption for "trusted" executables (seeded change C14-m14 stopped reporting B603 when the command starts with sys.executable)
@@ -40,7 +42,11 @@ FULLPATH = re.compile(r"^(?:[A-Za-z]:|[\\/.])")
 def spellings(q):
     parts = q.split(".")
     mod, f = ".".join(parts[:-1]), parts[-1]
-    return [(f"import {mod}\n", q), (f"import {mod} as m_\n", f"m_.{f}"), (f"from {mod} import {f}\n", f), (f"from {mod} import {f} as f_\n", "f_")]
+    return [(f"import {mod}\n", q), (f"import {mod} as m_\n", f"m_.{f}"), (f"from {mod} import {f}\n", f), (f"from {mod} import {f} as f_\n", "f_"),
+            # the same local name bound twice by import: the LATER binding is the one in force (seeded change C14-m17 kept the first: `setdefault`)
+            (f"import json as m_\nimport {mod} as m_\n", f"m_.{f}"),
+            (f"try:\n    from backport32_ import {f}\nexcept ImportError:\n    from {mod} import {f}\n", f),
+            (f"def other_():\n    from fabric.api import {f}\n    return {f}\n\n\nfrom {mod} import {f}\n", f)]
 
 
 def expected(family, cfg, first, shell, multiline_shell_line, call_line):
